@@ -98,7 +98,7 @@ Invs == [
   I37 |-> Call1("G", <<Id("x")>>),
   I38 |-> Call1("F", <<Id("x"), PLUS, Id("a")>>) ]
 
-Sel == CASE Profile = "q" -> [f |-> DOMAIN FDefs, g |-> {"G0", "G1", "G2", "G4", "G6"}, o |-> {"O0", "O1", "O4", "O3", "O7"}, i |-> DOMAIN Invs]
+Sel == CASE Profile = "q" -> [f |-> DOMAIN FDefs, g |-> {"G0", "G1", "G2", "G4", "G6"}, o |-> {"O0", "O1", "O4", "O3", "O6", "O7"}, i |-> DOMAIN Invs]
          [] Profile = "t" -> [f |-> DOMAIN FDefs, g |-> DOMAIN GDefs, o |-> DOMAIN ODefs, i |-> DOMAIN Invs]
 
 VARIABLES fsel, gsel, osel, isel, osel2, done
